@@ -44,7 +44,8 @@ def write_directory(d, workdir, stem="inp"):
         hdr["DIRECTIO"] = 1
     k = 0
     while len(hdr) + 1 < d["cards"]:
-        hdr["FILL%03d" % k] = [k, 0.5 * k, "v%d" % k][k % 3]
+        # includes keys that merely start with the letters END (only a card that IS "END" terminates a header)
+        hdr[("FILL%03d" % k) if k != 2 else "ENDFREQ"] = [k, 0.5 * k, "v%d" % k][k % 3]
         k += 1
     if len(hdr) + 1 != d["cards"]:
         raise RuntimeError("cannot realise %d cards" % d["cards"])
@@ -132,7 +133,7 @@ def record_case(case, workdir):
         num_subblocks=case["S"])
     user = collections.OrderedDict()
     for k in range(case["extra"]):
-        user["U%02dKEY" % k] = [3 * k + 1, 0.125 * k + 0.5, "val%d" % k, -7 * k][k % 4]
+        user[("U%02dKEY" % k) if k != 3 else "ENDMJD"] = [3 * k + 1, 0.125 * k + 0.5, "val%d" % k, -7 * k][k % 4]
     if case["override"]:
         user.update({"NBITS": 2, "NPOL": 9, "OBSNCHAN": 999, "BLOCSIZE": 12345, "TBIN": 1.0, "CHAN_BW": 7.5,
                      "OBSBW": 1.5, "OBSFREQ": 1.0, "SCANLEN": 99.0})
@@ -147,6 +148,15 @@ def record_case(case, workdir):
         user["PKTIDX"] = case["pkt0"]
     given = dict(user)
     stem = os.path.join(workdir, "c04")
+    if case.get("prerecord"):
+        # an earlier recording on the same backend with a different header length (and padding): must leave nothing behind
+        pre = collections.OrderedDict(("P%02dCARD" % k, k) for k in range(7))
+        pre["DIRECTIO"] = 1
+        be.record(os.path.join(workdir, "pre"), num_blocks=1, length_mode="num_blocks", header_dict=pre, load_template=case["template"],
+                  verbose=False)
+        for fn in os.listdir(workdir):
+            if fn.startswith("pre."):
+                os.remove(os.path.join(workdir, fn))
     be.record(stem, num_blocks=case["blocks"], length_mode="num_blocks", header_dict=user, load_template=case["template"],
               verbose=False)
     tbin = B / rate
